@@ -932,6 +932,11 @@ def eq_objects(keys, quick):
         out.append({"kd": kd, "priv": True, "variant": "a"})
         out.append({"kd": kd, "priv": False, "variant": "a"})
         out.append({"kd": kd, "priv": True, "variant": "b"})
+    # the Edwards point with the other sign of x (public only): same y, encodings differ in one bit
+    for c in KS.EDW:
+        k = keys[c + "-seeded"]
+        out.append({"kd": dict(k, name=c + "-seeded-xnegated", d=None, seed=None, Q=[R.EC.CURVES[c].p - k["Q"][0], k["Q"][1]]),
+                    "priv": False, "variant": "a"})
     if not quick:
         # thorough: more near misses.  The negated point on the other Weierstrass curves; the Edwards point with the other
         # sign of x (public only); a DSA key with the same p, q, y but the generator g^2 (and x/2): only g and x differ
@@ -940,10 +945,6 @@ def eq_objects(keys, quick):
             cv = R.EC.CURVES[c]
             for pr in (True, False):
                 out.append({"kd": dict(k, name=c + "-x00-negated", d=cv.order - k["d"], Q=[k["Q"][0], cv.p - k["Q"][1]]), "priv": pr, "variant": "a"})
-        for c in KS.EDW:
-            k = keys[c + "-seeded"]
-            out.append({"kd": dict(k, name=c + "-seeded-xnegated", d=None, seed=None, Q=[R.EC.CURVES[c].p - k["Q"][0], k["Q"][1]]),
-                        "priv": False, "variant": "a"})
         for nm in ("dsa1024-160", "dsa2048-256"):
             k = keys[nm]
             out.append({"kd": dict(k, name=nm + "-gsquared", g=k["g"] * k["g"] % k["p"], x=k["x"] * KS.nt.inverse(2, k["q"]) % k["q"]),
